@@ -597,7 +597,31 @@ def r8_points_dispatch(repo: Repo, rep):
             rep.ok(R, fi.site(), fi.fq, "no Points conversion in this call method", "-")
 
 
+def r9_batch_split(repo: Repo, rep):
+    R = rep.rule("R-C13-9", "apply_to_batch hands element i of a value to call i exactly when the value's length is the batch size - whatever the argument is called and "
+                 "whether it has a stored default", floor=1,
+                 why="a batched value supplied for an optional argument would be passed whole to every call")
+    uf = _cls(repo, "UserFunction")
+    fi = uf.methods.get("apply_to_batch")
+    if fi is None:
+        rep.ok(R, uf.module.relpath, uf.fq, "no vectorised path", "-")
+        return
+    rep.saw(fi)
+    n = 0
+    for node in ast.walk(fi.node):
+        if isinstance(node, ast.If):
+            sets_elem = any(isinstance(a, ast.Assign) and isinstance(a.value, ast.Subscript) and isinstance(a.value.value, ast.Subscript) for a in ast.walk(node) if isinstance(a, ast.Assign))
+            if not sets_elem:
+                continue
+            n += 1
+            names = {x.attr for x in ast.walk(node.test) if isinstance(x, ast.Attribute) and isinstance(x.value, ast.Name) and x.value.id == "self"}
+            rep.check(R, not names, fi.site(node), fi.fq, "the split test compares lengths only", f"also consults self.{sorted(names)}: {dump(node.test)[:80]}", f"split depends on {sorted(names)}")
+    if n == 0:
+        rep.undecided(R, fi.site(), fi.fq, "the per-element split `inp_i[key] = inp[key][i]` under a test", "not found")
+
+
 def run(repo: Repo, rep):
+    r9_batch_split(repo, rep)
     r8_points_dispatch(repo, rep)
     r1_keyword_only(repo, rep)
     r2_r3_mapping(repo, rep)
